@@ -150,7 +150,9 @@ func c08values(md protoreflect.MessageDescriptor, rc *corpus.RouteCase) []struct
 		M     *dynamicpb.Message
 	}
 	out := []lv{{"sentinel", sentinelReq(md)}}
-	strs := []struct{ c, v string }{{"nonascii", "héllo wörld 日本"}, {"url-reserved", "a/b?c#d&e=f+g h;i%"}, {"astral", "a😀b"}}
+	strs := []struct{ c, v string }{{"nonascii", "héllo wörld 日本"}, {"url-reserved", "a/b?c#d&e=f+g h;i%"}, {"astral", "a😀b"},
+		// text that a client building the URL with a replace function or a template engine could mangle
+		{"replace-patterns", "a$&b$'c$`d$$e$1${x}"}, {"template-braces", "{id}{user_id}{}x"}, {"dot-like", "..a.."}, {"pct-looking", "x%2Fy%20z"}}
 	for _, s := range strs {
 		m := sentinelReq(md)
 		fds := md.Fields()
